@@ -97,8 +97,8 @@ def run_case(c, rng):
         o['pattern_start'] = rng.choice([0, o['pattern_timestep'], 3 * o['pattern_timestep'] + 600, 5400, 7 * 3600])
     wn = gnet.build(spec)
     interp = rng.random() < 0.25
+    wn.options.time.pattern_interpolation = interp        # whatever the generated spec said
     if interp:
-        wn.options.time.pattern_interpolation = True
         c.count('pattern_interpolation_cases')
     if rng.random() < 0.7:
         wn.options.energy.global_efficiency = rng.choice([75.0, 60.0, 82.5])
@@ -237,7 +237,7 @@ def run_case(c, rng):
     head = pd.DataFrame({n: [float(press.loc[tt, n]) + elev.get(n, 50.0) for tt in times] for n in allnodes}, index=times)
     demand = pd.DataFrame({n: [rng.choice([0.0, rng.uniform(0, 0.02)]) for _ in times] for n in allnodes}, index=times)
     for r_ in spec['reservoirs']:
-        demand[r_['name']] = [-rng.uniform(0.0, 0.1) for _ in times]
+        demand[r_['name']] = [-rng.uniform(-0.03, 0.1) for _ in times]      # mostly supplying, sometimes a reservoir that takes water in
     expd = pd.DataFrame({n: [rng.choice([0.0, rng.uniform(0.001, 0.02)]) for _ in times] for n in jn}, index=times)
     for n in jn:     # where nothing is expected nothing is delivered
         for tt in times:
